@@ -139,6 +139,12 @@ def run(facts, tier):
     c04.r04_4(facts, res)
     c04.r04_7(facts, res)
     c04.r04_8(facts, res)
+    c04.r04_9(facts, res)
+    c04.r04_10(facts, res)
+    c04.r04_11(facts, res)
+    from props import c01, c15
+    c01.r01_3(facts, res)       # every item of the input reaches the information set (xe leaves the others unchanged)
+    c15.r15_6(facts, res, "C17-10")
     # ---- C17-7: xe empties the selected node with child_nodes() + remove_child(); merged text nodes must go completely
     from props import c13
     c13.r13_5(facts, res, "C17-7")
